@@ -22,9 +22,9 @@ from symx import harness as hz
 PID = 'C15'
 
 
-def mk_entry(T, k, rate, fname):
-    return {'inputs': {'code': {'name': 'Toric2DCode', 'parameters': {'L_x': 2, 'L_y': 2, 'L_z': None},
-                                'n': 8, 'k': k, 'd': 2},
+def mk_entry(T, k, rate, fname, L=2):
+    return {'inputs': {'code': {'name': 'Toric2DCode', 'parameters': {'L_x': L, 'L_y': L, 'L_z': None},
+                                'n': 2 * L * L, 'k': k, 'd': L},
                        'error_model': {'name': 'PauliErrorModel',
                                        'parameters': {'r_x': 1 / 3, 'r_y': 1 / 3, 'r_z': 1 / 3,
                                                       'deformation_name': None, 'deformation_kwargs': {}}},
@@ -223,20 +223,24 @@ def w_files(cfg, tier):
     # the third rate is the same number spelled with different last bits in different files (0.3 and
     # 0.1 + 0.2 = 0.30000000000000004, as result archives of repeated runs contain): one (code, noise,
     # decoder, error rate) group -- the pipeline identifies rates to six decimals
-    records, raw = [], {0.1: [0, 0], 0.2: [0, 0], 0.3: [0, 0]}
+    # two lattice sizes whose decimal strings sort differently from their values (8 < 10, '10' < '8'): groups
+    # are (code, noise, decoder, error rate) and every group's estimate must come from ITS OWN counts
+    LS = (8, 10)
+    records, raw = [], {(L_, r_): [0, 0] for L_ in LS for r_ in (0.1, 0.2, 0.3)}
     for i, T in enumerate(sizes):
         recs = []
-        for rate in (0.1, 0.2, 0.3):
-            spelled = rate if (rate != 0.3 or i % 2 == 0) else 0.1 + 0.2
-            e = mk_entry(T + (rate == 0.2), k, spelled, 'x')
-            n_t = T + (rate == 0.2)
-            succ = [bool(rng.integers(0, 2)) for _ in range(n_t)]
-            e['results']['success'] = succ
-            e['results']['codespace'] = [True] * n_t
-            e['results']['effective_error'] = [[0, 0] if s_ else [1, 0] for s_ in succ]
-            raw[rate][0] += n_t
-            raw[rate][1] += n_t - sum(succ)
-            recs.append(e)
+        for L_ in LS:
+            for rate in (0.1, 0.2, 0.3):
+                spelled = rate if (rate != 0.3 or i % 2 == 0) else 0.1 + 0.2
+                n_t = T + (rate == 0.2) + (L_ == 10)
+                e = mk_entry(n_t, k, spelled, 'x', L=L_)
+                succ = [bool(rng.integers(0, 2)) for _ in range(n_t)]
+                e['results']['success'] = succ
+                e['results']['codespace'] = [True] * n_t
+                e['results']['effective_error'] = [[0, 0] if s_ else [1, 0] for s_ in succ]
+                raw[(L_, rate)][0] += n_t
+                raw[(L_, rate)][1] += n_t - sum(succ)
+                recs.append(e)
         records.append(recs)
     eng = Engine(name=cfg, max_paths=4000)
     import itertools as it
@@ -264,7 +268,7 @@ def w_files(cfg, tier):
                 df = a.get_results()
                 got = {}
                 for _, r_ in df.iterrows():
-                    key = round(float(r_['error_rate']), 6)
+                    key = (int(round((int(r_['n']) / 2) ** 0.5)), round(float(r_['error_rate']), 6))
                     if key in got:                      # two report rows for one rate: not pooled
                         got[('duplicate', len(got))] = (int(r_['n_trials']), int(r_['n_fail']), float(r_['p_est']))
                     else:
